@@ -234,6 +234,9 @@ def get_attr(I, obj, name, node):
     if isinstance(obj, Regex):
         if name in REGEX_METHODS:
             return Builtin('regex.' + name, recv=obj)
+    if isinstance(obj, frozenset) and name in ('add', 'discard', 'remove', 'update', 'clear', 'pop', 'difference_update',
+                                               'intersection_update', 'symmetric_difference_update'):
+        return Builtin('set.mutate', recv=obj)
     if isinstance(obj, (tuple, frozenset)):
         return Builtin('%s.%s' % (type(obj).__name__, name), recv=obj)
     if isinstance(obj, type):
